@@ -1,0 +1,59 @@
+//go:build verif
+
+package dict
+
+import (
+	"fmt"
+	"math/rand"
+	"os"
+	"runtime"
+	"sort"
+	"strconv"
+	"strings"
+)
+
+var verifMode = os.Getenv("VERIF_DICT_ORDER")
+var verifLog = os.Getenv("VERIF_DICT_LOG")
+var verifCalls int64
+
+// verifOrderedKeys returns the keys of m in the order selected by VERIF_DICT_ORDER
+// (asc, desc, rot:K, shuffle:SEED). Unset: inactive, native Go map order is used.
+func verifOrderedKeys[K comparable, V any](m map[K]V) ([]K, bool) {
+	if verifLog != "" {
+		pc, _, _, _ := runtime.Caller(2)
+		name := "?"
+		if f := runtime.FuncForPC(pc); f != nil {
+			name = f.Name()
+		}
+		if fh, err := os.OpenFile(verifLog, os.O_APPEND|os.O_CREATE|os.O_WRONLY, 0644); err == nil {
+			fmt.Fprintf(fh, "%s %d\n", name, len(m))
+			fh.Close()
+		}
+	}
+	if verifMode == "" {
+		return nil, false
+	}
+	verifCalls++
+	keys := make([]K, 0, len(m))
+	for k := range m {
+		keys = append(keys, k)
+	}
+	sort.Slice(keys, func(i, j int) bool { return fmt.Sprint(keys[i]) < fmt.Sprint(keys[j]) })
+	mode, arg, _ := strings.Cut(verifMode, ":")
+	n, _ := strconv.ParseInt(arg, 10, 64)
+	switch mode {
+	case "desc":
+		for i, j := 0, len(keys)-1; i < j; i, j = i+1, j-1 {
+			keys[i], keys[j] = keys[j], keys[i]
+		}
+	case "rot":
+		if len(keys) > 0 {
+			r := int(n) % len(keys)
+			keys = append(keys[r:], keys[:r]...)
+		}
+	case "shuffle":
+		rnd := rand.New(rand.NewSource(n*1000003 + verifCalls))
+		rnd.Shuffle(len(keys), func(i, j int) { keys[i], keys[j] = keys[j], keys[i] })
+	}
+	return keys, true
+}
